@@ -567,55 +567,84 @@ def unwalrus(tree):
 
 def unalias_callees(tree):
     """`match = pattern.match` / `append = items.append` / `read_header = ArMember.from_file` in front of a loop, and `match(line)` inside:
-    a local that is bound ONCE, at the top level of a function, to an attribute of something that is not re-bound afterwards, and that is
-    only ever CALLED, is replaced by what it stands for (the look-up it saves gives the same function each time).  Every rule sees the
-    plain call."""
-    from . import normalize
+    a local that is bound ONCE in its function to an attribute chain `base.a.b`, where neither `base` nor a prefix of the chain is re-bound
+    anywhere in the function, and that is only ever CALLED, is replaced by what it stands for (the look-up it saves gives the same
+    function each time; changing the CONTENT of an object on the chain -- `self[key] = value`, `items.append(x)` -- re-binds nothing).
+    Every rule sees the plain call."""
+    import copy as _copy
 
-    def only_called(fn, name):
-        uses = [n for n in ast.walk(fn) if isinstance(n, ast.Name) and n.id == name and isinstance(n.ctx, ast.Load)]
-        callees = {id(c.func) for c in ast.walk(fn) if isinstance(c, ast.Call)}
-        return bool(uses) and all(id(u) in callees for u in uses)
-
-    def chain(v):
+    def chain_of(v):
+        parts = []
         while isinstance(v, ast.Attribute):
+            parts.append(v.attr)
             v = v.value
         if isinstance(v, ast.Call) and isinstance(v.func, ast.Name) and v.func.id == 'super' and all(isinstance(a, ast.Name) for a in v.args) and not v.keywords:
-            return True          # super().method / super(Class, self).method
-        return isinstance(v, ast.Name)
+            return ('super()',) + tuple(reversed(parts))
+        if isinstance(v, ast.Name):
+            return (v.id,) + tuple(reversed(parts))
+        return None
 
-    def visit(body):
-        for i, st in enumerate(body):
-            if isinstance(st, ast.ClassDef):
-                visit(st.body)
-            elif isinstance(st, (ast.FunctionDef,)):
-                inner = []          # (also inside a with / try / if block of the function, not inside a loop or a nested function)
-                todo = list(st.body)
-                while todo:
-                    t = todo.pop()
-                    inner.append(t)
-                    if isinstance(t, (ast.With, ast.Try, ast.If)):
-                        for fld in ('body', 'orelse', 'finalbody'):
-                            todo.extend(getattr(t, fld, []) or [])
-                        for h in getattr(t, 'handlers', []) or []:
-                            todo.extend(h.body)
-                cands = [t.targets[0].id for t in inner if isinstance(t, ast.Assign) and len(t.targets) == 1 and isinstance(t.targets[0], ast.Name)
-                         and isinstance(t.value, ast.Attribute) and chain(t.value)]
-                cands = [c for c in cands if only_called(st, c)]
-                if cands and not any(isinstance(n, (ast.Global, ast.Nonlocal)) for n in ast.walk(st)):
-                    try:
-                        new, done = normalize.propagate_aliases(st, select=lambda name, v: name in cands and isinstance(v, ast.Attribute), allow_calls=('len', 'super'))
-                    except Exception:      # pylint: disable=broad-except
-                        new, done = st, {}
-                    if done:
-                        body[i] = new
-            elif isinstance(st, (ast.If, ast.Try)):
+    def process(fn):
+        if any(isinstance(n, (ast.Global, ast.Nonlocal)) for n in ast.walk(fn)):
+            return
+        name_stores, attr_stores = {}, set()
+        for n in ast.walk(fn):
+            if isinstance(n, ast.Name) and isinstance(n.ctx, (ast.Store, ast.Del)):
+                name_stores[n.id] = name_stores.get(n.id, 0) + 1
+            elif isinstance(n, ast.Attribute) and isinstance(n.ctx, (ast.Store, ast.Del)):
+                c = chain_of(n)
+                if c:
+                    attr_stores.add(c)
+            elif isinstance(n, ast.arg):
+                name_stores[n.arg] = name_stores.get(n.arg, 0) + 1
+        params = {a.arg for a in fn.args.posonlyargs + fn.args.args + fn.args.kwonlyargs} | ({fn.args.vararg.arg} if fn.args.vararg else set()) | ({fn.args.kwarg.arg} if fn.args.kwarg else set())
+        callees = {id(c.func) for c in ast.walk(fn) if isinstance(c, ast.Call)}
+        subst = {}
+
+        def blocks(body, in_loop):
+            for st in body:
+                if isinstance(st, (ast.FunctionDef, ast.AsyncFunctionDef, ast.ClassDef)):
+                    continue
+                if not in_loop and isinstance(st, ast.Assign) and len(st.targets) == 1 and isinstance(st.targets[0], ast.Name) and isinstance(st.value, ast.Attribute):
+                    name, c = st.targets[0].id, chain_of(st.value)
+                    uses = [n for n in ast.walk(fn) if isinstance(n, ast.Name) and n.id == name and isinstance(n.ctx, ast.Load)]
+                    if c and name_stores.get(name) == 1 and name not in params and uses and all(id(u) in callees for u in uses) \
+                            and (c[0] == 'super()' or name_stores.get(c[0], 0) <= (1 if c[0] in params else 0)) \
+                            and not any(c[:k] in attr_stores for k in range(2, len(c) + 1)) \
+                            and all(getattr(u, 'lineno', 0) >= st.lineno for u in uses):
+                        subst[name] = (st, st.value)
+                inner = in_loop or isinstance(st, (ast.For, ast.While, ast.AsyncFor))
                 for fld in ('body', 'orelse', 'finalbody'):
-                    visit(getattr(st, fld, []) or [])
+                    v = getattr(st, fld, None)
+                    if isinstance(v, list) and v and isinstance(v[0], ast.stmt):
+                        blocks(v, inner)
                 for h in getattr(st, 'handlers', []) or []:
-                    visit(h.body)
-    visit(tree.body)
-    ast.fix_missing_locations(tree)
+                    blocks(h.body, inner)
+        blocks(fn.body, False)
+        if not subst:
+            return
+
+        class R(ast.NodeTransformer):
+            def visit_Name(self, n):
+                if isinstance(n.ctx, ast.Load) and n.id in subst:
+                    return ast.copy_location(_copy.deepcopy(subst[n.id][1]), n)
+                return n
+
+            def visit_Assign(self, n):
+                if any(n is st_ for st_, _v in subst.values()):
+                    return None
+                self.generic_visit(n)
+                return n
+        R().visit(fn)
+        for blk in ast.walk(fn):
+            for fld in ('body', 'orelse', 'finalbody'):
+                v = getattr(blk, fld, None)
+                if isinstance(v, list) and not v and fld == 'body':
+                    v.append(ast.Pass())
+        ast.fix_missing_locations(fn)
+    for n in ast.walk(tree):
+        if isinstance(n, ast.FunctionDef):
+            process(n)
     return tree
 
 
